@@ -328,10 +328,20 @@ fn member_map_name(t: &mut Tape, o: &GenOpts) -> String {
 fn gen_parent_fields(t: &mut Tape, depth: usize, need_types: bool, lab: &mut Labels) -> Vec<ParentField> {
     let n = 1 + t.below(3);
     let mut out = vec![];
+    // the struct flattened at this level may itself be a tuple struct: its members are indices and each leaf says which
+    // member of the counterpart it maps to
+    let tuple_level = t.chance(1, 6);
+    if tuple_level {
+        lab.add("parent:tuple-level");
+    }
     for i in 0..n {
-        let member = format!("{}{}", ["p", "q", "r"][i % 3], depth);
+        let member = if tuple_level { format!("{}", i) } else { format!("{}{}", ["p", "q", "r"][i % 3], depth) };
         let mut attrs = vec![];
-        if t.chance(1, 3) {
+        if tuple_level {
+            // `map` names the counterpart member for every kind (into_existing falls back to into)
+            let name = "map".to_string();
+            attrs.push((name, if t.chance(1, 3) { format!("t{}{}, {}", depth, i, expr(t, true, 1)) } else { format!("t{}{}", depth, i) }));
+        } else if t.chance(1, 3) {
             let name = t.pick(&["map", "from", "into", "map_owned", "into_existing", "from_ref"]).to_string();
             let args = match t.below(3) {
                 0 => format!("{}x", member),
